@@ -251,7 +251,8 @@ Definition fpoint_set (s : source) (rmin rmax : N) : fres :=
            | [] => FErr BadType
            | t2 => match text_number NF32 (or_f2 o) t2 with
                    | CErr _ => FErr BadType
-                   | CZero | CKeep => check x x
+                   | CZero | CKeep => check x x      (* white space behind the separator: mpt_iterator_consume copies its
+                                                        unassigned buffer, which holds x (stack image); not generated *)
                    | CVal vy => check x (nv_bits vy)
                    end
            end
